@@ -116,6 +116,12 @@ def gen_cases(chk, replays):
             saves.append(sp(pool[k % len(pool)], n, 1000 + k))
             k += 1
         cases.append({"origin": "boundary-size", "saves": saves})
+    # packages beyond 1 MiB: segment numbers >= 256 (second byte of the little-endian block key in use)
+    large = [256 * 4096 - 1, 256 * 4096, 256 * 4096 + 1, 257 * 4096 + 1]
+    if thorough:
+        large += [300 * 4096 + 17, 511 * 4096 + 4095, 513 * 4096 - 16, 1024 * 4096 + 1]
+    for j, n in enumerate(large):
+        cases.append({"origin": "large-package", "saves": [sp(pool[(2 * j + 2) % len(pool)], n, 3000 + j)]})
     for j, pw in enumerate(pool):
         cases.append({"origin": "every-password", "saves": [sp(pw, 4097 if j % 2 else 0, 7), sp(pw, 4096 + 15 * (j % 3), 7)]})
     # (3) the two workbook writers: package length steered around the 16-byte block and 4096-byte segment
@@ -261,6 +267,20 @@ def judge(chk, cases, program, nwrong):
     return events
 
 
+def mc_deep_stack(chk, cfg, must_take):
+    """vlib.tlc_mc with a 1 GiB thread stack (257-segment streams recurse deeply)."""
+    r = vlib.run_tlc("MC_Agile", cfg, workers=4, stack="1g")
+    if not r.ok:
+        print(r.out[-4000:])
+        raise vlib.ToolError(f"TLC did not complete cleanly on MC_Agile/{cfg}: rc={r.rc} {r.violation}")
+    for a in must_take:
+        if r.coverage.get(a, (0, 0))[1] == 0:
+            raise vlib.ToolError(f"vacuous model checking run: action {a} of MC_Agile/{cfg} was never taken")
+    vlib.log(f"[tlc] MC_Agile {cfg}: {r.generated} states generated, {r.distinct} distinct, depth {r.depth}, {r.wall:.1f}s")
+    chk.add_mc("MC_Agile", cfg, r)
+    return r
+
+
 def run(chk):
     thorough = chk.tier == "thorough"
     acts = ["Save", "TamperLen", "TamperDrop", "TamperSwap"]
@@ -268,6 +288,7 @@ def run(chk):
     program, vectors = spec_prints(r)
     vlib.tlc_mc("MC_Agile", "MC_Agile_deep.cfg" if not thorough else "MC_Agile_deep3.cfg", workers=4, must_take=acts,
                 check=chk)
+    mc_deep_stack(chk, "MC_Agile_big4.cfg" if thorough else "MC_Agile_big.cfg", acts)     # segment numbers >= 256
     rr = vlib.tlc_mc("MC_Agile", "MC_Agile_replay.cfg", workers=2, must_take=["Save"], check=chk)
     if not rr.replays:
         raise vlib.ToolError("no REPLAY histories were printed")
